@@ -16,18 +16,21 @@ META = {
              "combine_global_phases are transcribed in coq/Disc/PassesModel.v; Props/C17.v proves for ALL gate lists that the "
              "ordered product of the output equals that of the input in any monoid semantics satisfying the listed algebraic "
              "hypotheses (self-inverse, adjoint, disjoint wires commute, rotation angles add, zero rotation = identity, "
-             "barrier = identity, global phases central and additive), plus termination within the fuel, totality on "
-             "fixed-arity circuits, output structure (no barrier / at most one trailing GlobalPhase / irreducibility of the "
-             "cancel_inverses output head-pairs). undo_swaps and commute_controlled drivers are transcribed and tied (K) "
+             "barrier = identity, global phases central and additive), plus termination within the fuel, totality (no exception) on "
+             "fixed-arity circuits for cancel_inverses and on all circuits for merge_rotations, output structure (no barrier; non-phase "
+             "gates in order followed by exactly one GlobalPhase with the summed angle), and two REFUTATIONS of the acceptance clause "
+             "for variable-arity operators (cancel_inverses raises / cancels operators of different arity). "
+             "undo_swaps and commute_controlled drivers are transcribed and tied (K) "
              "without a semantic theorem. The models are run inside Coq on the same biased random coded circuits as the real "
              "passes and the outputs compared gate by gate (names, wires, dyadic angles). "
              "Layer 2 (differential, every pass of the property): random circuits on 1-4 wires with exactly representable "
-             "angles are transformed by the REAL pass on a fresh tape; input and output, each prefixed by 2-3 state "
-             "preparations (a generic product state, a random basis/Hadamard state, |0..0>), are simulated exactly by "
-             "vm_compute over Q(zeta_8) (Lin/ExactSim.v) and must satisfy |<in|out>| = 1 with the same phase for all "
-             "preparations (1e-9); when the pass computed new float angles (single_qubit_fusion, unitary_to_rot, Rot merging, "
-             "some compile pipelines) the float unitaries are compared up to one global phase at 1e-8. undo_swaps and "
-             "merge_amplitude_embedding are compared on the state reached from |0..0>. An exception on a valid circuit is a violation."),
+             "angles are transformed by the REAL pass on a fresh tape. Every run: the float unitaries of input and output (all columns) "
+             "must agree up to one global phase at 1e-8. Exact route (all exactly representable runs in the thorough tier up to a cap, "
+             "a round-robin subset over the passes in the quick tier, changed circuits first): input and output, each prefixed by 2-3 "
+             "state preparations (a generic product state, a random basis/Hadamard state, |0..0>), are simulated exactly by vm_compute "
+             "over Q(zeta_8) (Lin/ExactSim.v) and must satisfy |<in|out>| = 1 with the same phase for all preparations (1e-9). "
+             "undo_swaps and merge_amplitude_embedding are compared on the state reached from |0..0>. An exception on a valid circuit "
+             "is a violation."),
     "note": ("Per pass: cancel_inverses, merge_rotations (1-parameter rotations), remove_barrier, combine_global_phases = theorem + tie K + "
              "differential; undo_swaps, commute_controlled = driver model + tie K (commutation oracle recorded from qp.is_commuting) + "
              "differential, no semantic theorem; single_qubit_fusion, unitary_to_rot, Rot merging, pattern_matching_optimization, "
@@ -225,13 +228,13 @@ def diff_layer(ctx, runs, max_exact):
 def run(ctx):
     ctx.coq_props(extra_static=["Lin/ExactSim.vo"])
     quick = ctx.tier == "quick"
-    n_drv, n_diff = (600, 280) if quick else (6000, 2500)
+    n_drv, n_diff = (600, 280) if quick else (5000, 1500)
     t0 = time.time()
     out = ctx.run_impl("c17_impl.py", {"seed": ctx.seed, "tier": ctx.tier, "n_drv": n_drv, "n_diff": n_diff, "npreps": 2 if quick else 3}, timeout=3000)
     t1 = time.time()
     usable, skipped, hist = driver_layer(ctx, out["drivers"])
     t2 = time.time()
-    per, nsim = diff_layer(ctx, out["diff"], 45 if quick else 100000)
+    per, nsim = diff_layer(ctx, out["diff"], 40 if quick else 350)
     ctx.notes.append(f"timing: impl {t1 - t0:.1f}s, driver tie {t2 - t1:.1f}s, exact differential {time.time() - t2:.1f}s")
     ctx.coverage.update({
         "evaluations": len(usable) + len(out["diff"]),
